@@ -866,3 +866,88 @@ func indexOf(ns []*Node, n *Node) int {
 	}
 	return 0
 }
+
+func init() { scenarios["compaction-grid"] = scenCompactionGrid }
+
+// scenCompactionGrid (C09): a follower is left behind at a seeded position
+// (entries have a fixed size, so positions fall before / on / after segment
+// boundaries), either unreachable (cut) or reachable but silent (stalled);
+// the rest goes on, snapshots are taken on the leader and / or the other
+// follower, logs are compacted; more updates; the follower comes back and
+// must be brought up to date by entries or by snapshot; nodes are restarted
+// from snapshot + log suffix.
+func scenCompactionGrid(e *engineA) error {
+	e.prof = profiles["snapshot"]
+	if err := e.boot(3); err != nil {
+		return err
+	}
+	e.cl.startInfoSampler(e.hb() / 2)
+	l := e.cl.leader()
+	if l == nil {
+		return fmt.Errorf("no leader")
+	}
+	pad := 90 + 10*e.rng.Intn(4)
+	n1 := 3 + e.rng.Intn(30)
+	n2 := 10 + e.rng.Intn(40)
+	n3 := e.rng.Intn(12)
+	cut := e.rng.Intn(2) == 0
+	who := e.rng.Intn(3) // 0 leader, 1 follower, 2 both
+	for i := 0; i < n1; i++ {
+		e.cl.fsmOpPad(1, l, "update", pad)
+	}
+	fs := e.others(l)
+	f, o := fs[0], fs[1]
+	e.rc.emit(&ev.Rec{K: "fault", Op: fmt.Sprintf("grid n1=%d n2=%d n3=%d cut=%v who=%d pad=%d", n1, n2, n3, cut, who, pad), Nid: f.nid})
+	if cut {
+		e.isolate(f, true)
+	} else {
+		e.net.Stall(l.label, f.label, true)
+		e.net.Stall(o.label, f.label, true)
+	}
+	for i := 0; i < n2; i++ {
+		if r := e.cl.fsmOpPad(1, l, "update", pad); !r.ok {
+			break
+		}
+	}
+	e.sleepHB(3, 5)
+	if who == 0 || who == 2 {
+		e.cl.takeSnapshot(l, 0)
+	}
+	if who == 1 || who == 2 {
+		e.cl.takeSnapshot(o, 0)
+	}
+	e.sleepHB(2, 4)
+	for i := 0; i < n3; i++ {
+		if r := e.cl.fsmOpPad(1, l, "update", pad); !r.ok {
+			break
+		}
+	}
+	if e.rng.Intn(2) == 0 {
+		// a second snapshot moves the boundary again
+		e.cl.takeSnapshot(l, 0)
+		e.sleepHB(1, 2)
+	}
+	e.rc.emit(&ev.Rec{K: "fault", Op: "grid-heal", Nid: f.nid})
+	if cut {
+		e.isolate(f, false)
+	} else {
+		e.net.Stall(l.label, f.label, false)
+		e.net.Stall(o.label, f.label, false)
+		drop := e.rng.Intn(2) == 0
+		e.net.Release(l.label, f.label, drop)
+		e.net.Release(o.label, f.label, drop)
+	}
+	e.startClients(2, map[string]int{"update": 3, "read": 1})
+	e.sleepHB(4, 8)
+	// restart from snapshot + suffix
+	for _, n := range e.cl.liveNodes() {
+		if e.rng.Intn(2) == 0 {
+			e.rc.emit(&ev.Rec{K: "fault", Op: "restart", Nid: n.nid})
+			if _, err := e.cl.restart(n.nid); err != nil {
+				e.rc.emit(&ev.Rec{K: "restart-failed", Cid: e.cl.cid, Nid: n.nid, Err: err.Error()})
+			}
+			e.sleepHB(1, 3)
+		}
+	}
+	return e.finish()
+}
